@@ -31,6 +31,7 @@ CONSTANTS
   Alphabet,    \* subset of action-family names enabled in gen mode
   InitKind,    \* "unborn" | "base" (one commit holding two human lines in file F0)
   F0,          \* the file populated by InitKind = "base"
+  BaseLines,   \* number of human lines (uids 1..BaseLines) that file holds in the base commit
   Dev          \* set of as-built deviation names that are ACTIVE in the mechanism
 
 H    == "H"
@@ -389,10 +390,14 @@ Step(rec) == Step2(rec, {})
 \* the agent protocol: git commands and human work only when no agent edit is un-reported
 NoAgentDirty == \A g \in File : dirty[g] \in {None, H}
 
+\* a file is settled when git-ai has seen its current content: it equals HEAD, or the newest snapshot of it
+Settled(f) == wt[f] = HeadTree[f] \/ (wl[head].ent[f].has /\ wl[head].ent[f].snap = wt[f])
+
 \* ---- edit: file f gets content c typed by `who` (no git-ai involvement)
 Edit(who, kind, f, c) ==
   /\ Guard(/\ (who = H => NoAgentDirty)
-           /\ (who # H => \A g \in File : dirty[g] \in {None, who})
+           \* agent protocol: an agent starts editing from a checkpointed state (the pre-edit human checkpoint)
+           /\ (who # H => \A g \in File : dirty[g] = who \/ (dirty[g] = None /\ Settled(g)))
            /\ Len(c) <= MaxLines
            /\ HunkSubset(HeadTree[f], idx[f], c))
   /\ LET fresh == { u \in UidsOf(c) : u >= nu }
@@ -411,12 +416,29 @@ InsAt(c, p, x) == SubSeq(c, 1, p) \o <<x>> \o SubSeq(c, p + 1, Len(c))     \* af
 DelAt(c, p)    == SubSeq(c, 1, p - 1) \o SubSeq(c, p + 1, Len(c))
 SetAt(c, p, x) == [c EXCEPT ![p] = x]
 
+\* insert one fresh line into each gap of P (ascending), in one edit
+RECURSIVE BurstFrom(_, _, _, _)
+BurstFrom(c, P, k, u) ==   \* k = gap index being processed (0..Len(c)), u = next uid
+  IF k > Len(c) THEN <<>>
+  ELSE (IF k \in P THEN << <<u, 0>> >> ELSE <<>>)
+       \o (IF k < Len(c) THEN << c[k + 1] >> ELSE <<>>)
+       \o BurstFrom(c, P, k + 1, IF k \in P THEN u + 1 ELSE u)
+
+GenBurst ==
+  \E who \in Author, f \in File :
+    \E P \in SUBSET (0..Len(wt[f])) :
+      /\ Cardinality(P) \in 2..3
+      /\ nu + Cardinality(P) - 1 <= MaxUid
+      /\ Edit(who, "burst", f, BurstFrom(wt[f], P, 0, nu))
+
+EditOn(k) == "edit" \in Alphabet \/ k \in Alphabet
 GenEdit ==
   \E who \in Author, f \in File :
-    \/ \E p \in 0..Len(wt[f]) : nu <= MaxUid /\ Edit(who, "ins", f, InsAt(wt[f], p, <<nu, 0>>))
-    \/ \E p \in DOMAIN wt[f] : Edit(who, "del", f, DelAt(wt[f], p))
-    \/ \E p \in DOMAIN wt[f] : nu <= MaxUid /\ Edit(who, "mod", f, SetAt(wt[f], p, <<nu, 0>>))
-    \/ \E p \in DOMAIN wt[f] : Edit(who, "ind", f, SetAt(wt[f], p, <<wt[f][p][1], 1 - wt[f][p][2]>>))
+    \/ EditOn("edit_ins") /\ \E p \in 0..Len(wt[f]) : nu <= MaxUid /\ Edit(who, "ins", f, InsAt(wt[f], p, <<nu, 0>>))
+    \/ EditOn("edit_del") /\ \E p \in DOMAIN wt[f] : Edit(who, "del", f, DelAt(wt[f], p))
+    \/ EditOn("edit_mod") /\ \E p \in DOMAIN wt[f] : nu <= MaxUid /\ Edit(who, "mod", f, SetAt(wt[f], p, <<nu, 0>>))
+    \/ EditOn("edit_ind") /\ \E p \in DOMAIN wt[f] :
+                              Edit(who, "ind", f, SetAt(wt[f], p, <<wt[f][p][1], 1 - wt[f][p][2]>>))
 
 \* ---- explicit checkpoint
 Checkpoint(kind, a, reported) ==
@@ -632,7 +654,7 @@ GenDestructive ==
 (* Initial states *)
 
 NoTrees == [c \in 1..MaxCommit |-> AllEmpty]
-BaseTree == [f \in File |-> IF f = F0 THEN << <<1, 0>>, <<2, 0>> >> ELSE EmptyC]
+BaseTree == [f \in File |-> IF f = F0 THEN [i \in 1..BaseLines |-> <<i, 0>>] ELSE EmptyC]
 
 InitCommon ==
   /\ stash = <<>> /\ snote = <<>>
@@ -654,7 +676,8 @@ InitBase ==
   /\ wt = BaseTree /\ idx = BaseTree /\ tree = [NoTrees EXCEPT ![1] = BaseTree]
   /\ par = [c \in 1..MaxCommit |-> 0] /\ ckind = [[c \in 1..MaxCommit |-> None] EXCEPT ![1] = "init"]
   /\ nc = 1 /\ head = 1
-  /\ truth = [u \in 1..MaxUid |-> IF u <= 2 THEN H ELSE None] /\ nu = 3 /\ der = [u \in 1..MaxUid |-> 0]
+  /\ truth = [u \in 1..MaxUid |-> IF u <= BaseLines THEN H ELSE None] /\ nu = BaseLines + 1
+  /\ der = [u \in 1..MaxUid |-> 0]
 
 Init == InitCommon /\ (IF InitKind = "base" THEN InitBase ELSE InitUnborn)
 
@@ -662,7 +685,8 @@ Init == InitCommon /\ (IF InitKind = "base" THEN InitBase ELSE InitUnborn)
 Next ==
   /\ Gen
   /\ Len(hist) < MaxSteps
-  /\ \/ "edit" \in Alphabet /\ GenEdit
+  /\ \/ GenEdit
+     \/ "burst" \in Alphabet /\ GenBurst
      \/ "ckpt" \in Alphabet /\ GenCheckpoint
      \/ GenStage
      \/ GenCommit
@@ -686,7 +710,7 @@ TrReset ==
         THEN /\ wt' = BaseTree /\ idx' = BaseTree /\ tree' = [NoTrees EXCEPT ![1] = BaseTree]
              /\ ckind' = [[c \in 1..MaxCommit |-> None] EXCEPT ![1] = "init"]
              /\ nc' = 1 /\ head' = 1
-             /\ truth' = [u \in 1..MaxUid |-> IF u <= 2 THEN H ELSE None] /\ nu' = 3
+             /\ truth' = [u \in 1..MaxUid |-> IF u <= BaseLines THEN H ELSE None] /\ nu' = BaseLines + 1
         ELSE /\ wt' = AllEmpty /\ idx' = AllEmpty /\ tree' = NoTrees
              /\ ckind' = [c \in 1..MaxCommit |-> None]
              /\ nc' = 0 /\ head' = 0
